@@ -244,7 +244,14 @@ func (fv *FuncVerifier) eval(e ast.Expr, st *State) Term {
 		return fv.evalSlice(e, st)
 	case *ast.StarExpr:
 		p := fv.eval(e.X, st)
-		return fv.deref(p, st, e.Pos())
+		v := fv.deref(p, st, e.Pos())
+		if fv.specMode == 0 && !fv.termMode {
+			v = fv.def("deref", v)
+			if pt, ok := fv.typeOf(e.X).Underlying().(*types.Pointer); ok {
+				fv.assumeTyped(st, v, pt.Elem())
+			}
+		}
+		return v
 	case *ast.UnaryExpr:
 		return fv.evalUnary(e, st)
 	case *ast.BinaryExpr:
